@@ -418,3 +418,79 @@ package redis
 //@   loop 0 unfold allints(r.children, rangeindex + 2)
 //@   loop 0 unfold sumints(r.children, rangeindex + 1)
 //@   loop 0 unfold allints(r.children, rangeindex + 1)
+
+// ---- C11/C04: replies from backends -------------------------------------------------------------
+
+//@ func (*client).handleResp
+//@   prop C04 C11 C02
+//@   requires c != nil && req != nil && v != nil
+
+//@ func (*upstream).handleRedirection
+//@   prop C04 C11
+//@   requires u != nil && req != nil && resp != nil
+
+//@ func (*upstream).handleClusterDown
+//@   prop C04 C11
+//@   requires u != nil && req != nil && resp != nil
+
+//@ func (*upstream).doSlotsRefresh
+//@   prop C11 C07
+//@   requires u != nil
+
+//@ func parseClusterNodes
+//@   prop C11 C14
+//@   flag bound-alloc
+
+//@ func parseClusterNodesSlot
+//@   prop C11
+//@   flag bound-alloc check-overflow
+
+//@ func (*FilterChain).Do
+//@   prop C11 C13
+//@   requires c != nil && r != nil && r.body != nil && len(r.body.Array) >= 1
+
+//@ func (*hotKeyFilter).Do
+//@   prop C11 C19
+//@   requires f != nil && req != nil && req.body != nil
+
+//@ func (*hotKeyFilter).extractKey
+//@   prop C11 C19
+//@   requires f != nil && v != nil
+//@   modifies nothing
+
+//@ func (*compressFilter).Do
+//@   prop C11 C13
+//@   requires f != nil && req != nil && req.body != nil
+
+//@ func (*compressFilter).Compress
+//@   prop C11 C13
+//@   requires f != nil && cfg != nil && resp != nil
+
+//@ func (*compressFilter).Decompress
+//@   prop C11 C13
+//@   requires f != nil && resp != nil
+
+//@ func (*compressFilter).decompress
+//@   prop C11 C13
+//@   requires f != nil
+
+// ---- encoder (C10 C11 C01) ---------------------------------------------------------------------------
+
+//@ func (*encoder).encode
+//@   prop C10 C11
+//@   requires e != nil && v != nil && e.bw != nil
+
+//@ func (*encoder).encodeArray
+//@   prop C10 C11
+//@   requires e != nil && e.bw != nil
+
+//@ func (*encoder).encodeBulkBytes
+//@   prop C10 C11
+//@   requires e != nil && e.bw != nil
+
+//@ func (*encoder).encodeInt
+//@   prop C10 C11
+//@   requires e != nil && e.bw != nil
+
+//@ func itoa
+//@   prop C10 C11
